@@ -56,6 +56,10 @@ def check_text(t, case=None, want_stats=False):
     from pico8.game.formatter import p8png
     case = case or {'text': bytes(t)}
     try:
+        compress.decompress_code(b':c:\x00\x00\x10\x00\x00' + b'\xff\x00' * (1 + len(t) % 3))     # a failing decode first
+    except Exception:
+        pass
+    try:
         returned = compress.compress_code(bytes(t))
         stream = bytes(returned)
     except Exception as e:
